@@ -26,6 +26,7 @@ import (
 	"fmt"
 	"log/slog"
 	"os"
+	"path/filepath"
 	"sort"
 	"strings"
 	"sync"
@@ -91,8 +92,8 @@ type c18State struct {
 	notes   map[string]bool
 	checks  int
 	polls   int
-	adv     int // polls that advanced the position
-	pages   int // pages compared
+	adv     int  // polls that advanced the position
+	pages   int  // pages compared
 	goneObs bool // a read of a page whose file left the replica has been observed failing in this history
 }
 
@@ -112,14 +113,6 @@ func (st *c18State) close() {
 		st.f.Close()
 		st.f = nil
 	}
-}
-
-func c18IsVOp(op string) bool {
-	switch op {
-	case "VOPEN", "VPOLL", "VLOCK", "VUNLOCK":
-		return true
-	}
-	return false
 }
 
 // c18Filter is the static legality of VFS actions: VOPEN once, the others only
@@ -789,6 +782,8 @@ func (hc *c18Check) replay(path string) int {
 
 func c18(args []string) int {
 	hc := &c18Check{}
+	// the scenario driver removes each scenario directory; remove this process's (then empty) scratch parent too
+	defer os.RemoveAll(filepath.Join(scn.ScratchRoot, fmt.Sprintf("lsmc-%d", os.Getpid())))
 	if p := replayArg(args); p != "" {
 		return hc.replay(p)
 	}
@@ -852,23 +847,24 @@ func c18(args []string) int {
 	aGap := sub("W1 SW CMP:1 CMP:2 RETL0A:2 VOPEN VPOLL VLOCK VUNLOCK")
 	aTT := sub("W1 D VAC SW CMP:1 SNAP VOPEN VPOLL")
 	aTTI := sub("W1 D IVAC SW CMP:1 SNAP VOPEN VPOLL")
+	// Small layers first: under load the time budget then cuts the broad layers, not the targeted ones.
 	layers := []c18Layer{
-		{Name: "exact/512-none/cache1", Cfg: n512, Cache: one(n512), Alphabet: aExact, Depth: d(4, 6), Seeds: seeds("W3 SW")},
-		{Name: "exact/512-incr/cache1", Cfg: i512, Cache: one(i512), Alphabet: aExactI, Depth: d(4, 6), Seeds: seeds("W3 SW")},
-		{Name: "seeded/512-none/cache1", Cfg: n512, Cache: one(n512), Alphabet: full, Depth: d(2, 3), Seeds: sNone},
-		{Name: "seeded/512-incr/cache1", Cfg: i512, Cache: one(i512), Alphabet: full, Depth: d(2, 3), Seeds: sIncr},
+		{Name: "pruned/512-none/cache1", Cfg: n512p, Cache: one(n512p), Alphabet: aGap, Depth: d(2, 3), Seeds: sGap},
+		{Name: "retention/512-none/cache1", Cfg: n512, Cache: one(n512), Alphabet: aGap, Depth: d(2, 3), Seeds: append(sGap, strings.Fields("W1 SW VOPEN W1 SW W1 SW W1 SW CMP:1"))},
+		{Name: "pruned/512-incr/cache-default", Cfg: i512p, Alphabet: aGap, Depth: d(2, 3), Seeds: sGap},
+		{Name: "locked/512-none/l0-pruned/cache-default", Cfg: n512p, Alphabet: sub("W1 D VAC SW CMP:1 VPOLL VUNLOCK VLOCK"), Depth: d(2, 4), Seeds: sLock},
 		{Name: "seeded/512-none/cache-default", Cfg: n512, Alphabet: aPoll, Depth: d(2, 3), Seeds: sNone},
 		{Name: "seeded/512-incr/cache-default", Cfg: i512, Alphabet: aPollI, Depth: d(2, 3), Seeds: sIncr},
 		{Name: "seeded/4096-none/cache1", Cfg: n4096, Cache: one(n4096), Alphabet: aPoll, Depth: d(2, 3), Seeds: sNone},
 		{Name: "polls/512-none/cache-default", Cfg: n512, Alphabet: aPoll, Depth: d(3, 5), Seeds: sPoll},
 		{Name: "polls/512-incr/cache1", Cfg: i512, Cache: one(i512), Alphabet: aPollI, Depth: d(3, 5), Seeds: sPoll},
-		{Name: "locked/512-incr/cache1", Cfg: i512, Cache: one(i512), Alphabet: aLock, Depth: d(3, 4), Seeds: sLock},
-		{Name: "locked/512-none/l0-pruned/cache-default", Cfg: n512p, Alphabet: sub("W1 D VAC SW CMP:1 VPOLL VUNLOCK VLOCK"), Depth: d(2, 4), Seeds: sLock},
-		{Name: "pruned/512-none/cache1", Cfg: n512p, Cache: one(n512p), Alphabet: aGap, Depth: d(2, 3), Seeds: sGap},
-		{Name: "pruned/512-incr/cache-default", Cfg: i512p, Alphabet: aGap, Depth: d(2, 3), Seeds: sGap},
-		{Name: "retention/512-none/cache1", Cfg: n512, Cache: one(n512), Alphabet: aGap, Depth: d(2, 3), Seeds: append(sGap, strings.Fields("W1 SW VOPEN W1 SW W1 SW W1 SW CMP:1"))},
 		{Name: "time-travel/512-none", Cfg: n512, Cache: one(n512), TT: true, Alphabet: aTT, Depth: d(1, 3), Seeds: sTT},
 		{Name: "time-travel/512-incr/l0-pruned", Cfg: i512p, TT: true, Alphabet: aTTI, Depth: d(1, 3), Seeds: sTTI},
+		{Name: "locked/512-incr/cache1", Cfg: i512, Cache: one(i512), Alphabet: aLock, Depth: d(3, 4), Seeds: sLock},
+		{Name: "exact/512-none/cache1", Cfg: n512, Cache: one(n512), Alphabet: aExact, Depth: d(4, 6), Seeds: seeds("W3 SW")},
+		{Name: "exact/512-incr/cache1", Cfg: i512, Cache: one(i512), Alphabet: aExactI, Depth: d(4, 6), Seeds: seeds("W3 SW")},
+		{Name: "seeded/512-none/cache1", Cfg: n512, Cache: one(n512), Alphabet: full, Depth: d(2, 3), Seeds: sNone},
+		{Name: "seeded/512-incr/cache1", Cfg: i512, Cache: one(i512), Alphabet: full, Depth: d(2, 3), Seeds: sIncr},
 		{Name: "merged/512-incr/wide/cache1", Cfg: i512, Cache: one(i512), Alphabet: full, Depth: d(6, 10), Merge: true, MaxRuns: int64(d(300, 40000)), Seeds: seeds("W3 W3 SW")},
 	}
 	return hc.runLayers(layers, ev.Budget(85*time.Second, 45*time.Minute),
